@@ -4,7 +4,7 @@
 S=$1; P=$2; T=${3:-quick}
 cd /repo || exit 9
 if ! git diff --quiet; then echo "$S: /repo has uncommitted changes, refusing"; exit 9; fi
-if ! git apply --3way /verif/seeded/$S/patch.diff >/tmp/run_seed_apply.log 2>&1; then
+if ! git apply --3way $( [ -f /verif/seeded/$S/patch_head.diff ] && echo /verif/seeded/$S/patch_head.diff || echo /verif/seeded/$S/patch.diff ) >/tmp/run_seed_apply.log 2>&1; then
   git reset -q --hard HEAD; echo "$S vs $P: PATCH-CONFLICT (seed overlaps a later fix/hook commit)"; exit 7
 fi
 git reset -q   # keep the change in the working tree only
